@@ -67,8 +67,10 @@ def delegation_cases(draw, force_kind=None, sign_for_asked=False):
             own[asked] = {"pubkeys": pubs, "threshold": 1}
         if utype == "root" or draw(st.booleans()):
             own.setdefault("root", {"pubkeys": pubs[:1], "threshold": 1})
-        payload = GM.signed_part(utype, own, version=draw(st.integers(1, 9)),
-                                 timestamp=draw(st.one_of(st.none(), GM.utc_times)))
+        ts_ = draw(st.one_of(st.none(), GM.utc_times))
+        # version is optional for non-root metadata that carries a timestamp
+        ver_ = None if (utype != "root" and ts_ is not None and draw(st.integers(0, 2)) == 0) else draw(st.integers(1, 9))
+        payload = GM.signed_part(utype, own, version=ver_, timestamp=ts_)
     elif kind == "record":
         payload = draw(G.package_record)
     else:
@@ -100,13 +102,34 @@ def delegation_cases(draw, force_kind=None, sign_for_asked=False):
     # one case in six: the trusted metadata carries a near-miss of a field's grammar (another time spelling - offsets instead of
     # Z, a blank instead of T, no seconds, date only -, or a version / timestamp that is present but falsy): whether it still
     # counts as well-formed is the reference schema's call (gray spellings are not asserted)
-    tflaw = draw(st.sampled_from(["none"] * 5 + ["time", "falsy"] if not sign_for_asked else ["none"]))
+    tflaw = draw(st.sampled_from(["none"] * 5 + ["time", "falsy", "key-spelling"] if not sign_for_asked else ["none"]))
     if tflaw == "time":
         from . import gen_mutate as MU
         f = draw(st.sampled_from(["expiration", "timestamp"]))
         new = MU._edit(T["signed"][f], "time:" + draw(st.sampled_from(MU.TIME_EDITS)))
         if new is not None:
             T["signed"][f] = new
+    elif tflaw == "key-spelling":
+        # one key of the asked (or any) role listed in another spelling: upper / mixed case, one letter capitalised, a blank
+        rs = [r for r in T["signed"]["delegations"] if T["signed"]["delegations"][r]["pubkeys"]]
+        if rs:
+            r = asked if asked in rs else rs[0]
+            ks = T["signed"]["delegations"][r]["pubkeys"]
+            i = draw(st.integers(0, len(ks) - 1))
+            k = ks[i]
+            cands = [k.upper(), k[:10].upper() + k[10:], k[:-8] + k[-8:].upper(), k + " ", " " + k]
+            for j, ch in enumerate(k):
+                if ch in "abcdef":
+                    cands.append(k[:j] + ch.upper() + k[j + 1:])
+                    break
+            v = draw(st.sampled_from([c for c in cands if c != k]))
+            if draw(st.booleans()):
+                ks[i] = v            # the spelling replaces the key
+            else:
+                ks.append(v)         # ... or sits next to it
+            if k in U["signatures"] and draw(st.booleans()):
+                import copy as _copy
+                U["signatures"][v] = _copy.deepcopy(U["signatures"][k])
     elif tflaw == "falsy":
         T["signed"][draw(st.sampled_from(["version", "timestamp", "version"]))] = draw(st.sampled_from([0, None, False, "", 0.0, [], {}]))
     return {"role": asked, "U": U, "T": T, "gpg": gpg, "aim": aim, "ask_kind": ask_kind, "kind": kind,
